@@ -240,6 +240,27 @@ def wide_special_cases(tier):
             for special in (["empty"], ["any"]):
                 yield {"a": ["parse", tree], "b": special}
                 yield {"a": special, "b": ["parse", tree]}
+    # really wide ones (16 and more atoms: hundreds of clauses in the other normal form) against the same elements;
+    # cheap on a correct tree because the neutral / absorbing operand is dealt with before anything is distributed
+    pool = [
+        {"var": v, "op": "==", "val": x, "rev": False, "style": 0}
+        for v, xs in (("os_name", ["nt", "posix", "java"]), ("sys_platform", ["linux", "win32", "darwin", "cygwin"]), ("platform_machine", ["x86_64", "arm64", "aarch64"]),
+                      ("implementation_name", ["cpython", "pypy"]), ("platform_system", ["Linux", "Windows", "Darwin"]), ("platform_python_implementation", ["CPython", "PyPy"]))
+        for x in xs
+    ]
+    byvar: dict = {}
+    for a in pool:
+        byvar.setdefault(a["var"], []).append(a)
+    vars_ = list(byvar)
+    for sizes in [(3, 3, 3, 3, 4), (2,) * 9, (4, 4, 4, 4), (3, 3, 3, 3, 3)] if tier == "quick" else [(3, 3, 3, 3, 4), (2,) * 9, (4, 4, 4, 4), (3, 3, 3, 3, 3), (2,) * 10, (4, 4, 4, 5), (5, 5, 5)]:
+        groups = []
+        for gi, size in enumerate(sizes):
+            groups.append([byvar[vars_[(gi + j) % len(vars_)]][(gi + 2 * j) % len(byvar[vars_[(gi + j) % len(vars_)]])] for j in range(size)])
+        for inner, outer in (("and", "or"),):  # written as DNF: parsing the conjunctive spelling would itself distribute
+            tree = [outer, [[inner, [["atom", a] for a in g]] for g in groups]]
+            for special in (["empty"], ["any"]):
+                yield {"a": ["parse", tree], "b": special}
+                yield {"a": special, "b": ["parse", tree]}
 
 
 def tasks(tier, seed):
